@@ -23,11 +23,13 @@ def regenerate(ctx):
     regenerate_core()
 
 
-def run_stream(ctx, n, depth, oracle, entries=C.ALL_ENTRIES, shard=300, gen=None):
+def run_stream(ctx, n, depth, oracle, entries=C.ALL_ENTRIES, shard=300, gen=None, corpus=True):
     """generate, run on both sides, report; oracle(case, res) -> list of (shape, what) property failures"""
     cases = (gen or C.gen_cases)(ctx.rng, n, depth, entries=entries)
     for c in cases:
         c['strategy'] = ctx.rng.choice(['O1', 'O1', 'On'])
+    if corpus:
+        cases = C.load_corpus() + cases
     failures = 0
     for lo in range(0, len(cases), shard):
         part = cases[lo:lo + shard]
